@@ -133,7 +133,7 @@ SPEC = {
             "ulid.MustNew = abstract instant + strictly increasing counter; timestamppb.Now = fresh non-decreasing abstract instant",
             "the order of delete entries inside one Write is not part of the contract (memory logs them in store order)",
         ],
-        "outside": ["SQL transaction, crash and connection-failure points (not encodable)", "concurrent Writes (single mutex, not explored here)", "non-empty condition contexts", "more than 3 records / 2 deletes / 2 writes"],
+        "outside": ["SQL transaction, crash and connection-failure points (not encodable)", "concurrent Writes (single mutex, not explored here)", "non-empty condition contexts", "WriteCommand option parsing (parseOptionOnDuplicate/OnMissing) until registered", "more than 3 records / 2 deletes / 2 writes"],
     },
     "C13": {
         "jobs": c13,
